@@ -109,7 +109,9 @@ impl Reporter {
         } else {
             st.violation_count += 1;
             if st.violations.len() < 20 && !st.violations.iter().any(|v| v.0 == key && st_len_ge(&st.violations, key, 3)) {
-                st.violations.push((key.to_string(), desc.to_string(), replay));
+                // (descriptions of cases with very long inputs are cut; the replay file has the input)
+                let d: String = if desc.chars().count() > 1500 { format!("{} ... [{} characters in all]", desc.chars().take(1500).collect::<String>(), desc.chars().count()) } else { desc.to_string() };
+                st.violations.push((key.to_string(), d, replay));
             }
             true
         }
